@@ -336,6 +336,9 @@ def _reference_post_state(e, kind, g, A0, A1, a32, op, hit0):
         for w in range(g.ways):
             same = land(_iff(ways1[w]["valid"], ways0[w]["valid"]), implies(ways0[w]["valid"], cond("==", ways1[w]["tag"], ways0[w]["tag"])))
             acc.append(("C09:other-set-untouched-s%dw%d" % (s, w), lor(in_set, same)))
+        # ... including their replacement state (every set has its own policy instance)
+        rep_same = land(*[(cond("==", rep1[k], rep0[k]) if kindr == "lru" else _iff(rep1[k], rep0[k])) for k in range(len(rep0))])
+        acc.append(("C09:other-set-policy-untouched-s%d" % s, lor(in_set, rep_same)))
         hitw = [land(ways0[w]["valid"], cond("==", ways0[w]["tag"], tag)) for w in range(g.ways)]
         anyhit = lor(*hitw)
         # victim under the configured policy
